@@ -385,6 +385,10 @@ def rule_scrypt(model, rep):
     fn = model.func(SI, "validate")
     for test in ("r < 1", "p < 1", "r * p > MAX_RP", "n < 2 or n & n - 1"):
         rep.check(has_if(fn, test), R, site(SI, "validate"), test, f"parameter check `{test}` raises ValueError", witness="invalid scrypt parameters accepted (or valid ones refused)")
+    bound = [n for n in walk_no_nested(fn) if isinstance(n, ast.If) and n.body and isinstance(n.body[-1], ast.Raise) and "16 * r" in ast.unparse(n.test) and "n" in [x.id for x in ast.walk(n.test) if isinstance(x, ast.Name)]]
+    rep.check(bool(bound), R, site(SI, "validate") + " n bound", ast.unparse(bound[0].test) if bound else "no check of n against 2**(16*r)",
+              "N < 2**(16*r) (RFC 7914 section 2; stated in validate()'s own docstring) is enforced",
+              witness="validate(65536, 1, 1) is True: the builtin backend computes a key and hash.scrypt.using(rounds=16, block_size=1) emits a hash that hashlib.scrypt (stdlib backend) refuses to verify")
     u = model.unit(SI)
     rep.check(model.fold(u, ast.Name(id="MAX_RP", ctx=ast.Load())) == (1 << 30) - 1, R, site(SI, "MAX_RP"), "2**30-1", "r*p limit")
     rep.check(model.fold(u, ast.Name(id="MAX_KEYLEN", ctx=ast.Load())) == ((1 << 32) - 1) * 32, R, site(SI, "MAX_KEYLEN"), "(2**32-1)*32", "dkLen limit")
@@ -403,10 +407,15 @@ def rule_saslprep(model, rep):
     body = fn.body
     texts = [ast.unparse(x) for x in body]
     i_map = next((i for i, t in enumerate(texts) if t.startswith("data = ''.join((_USPACE if stringprep.in_table_c12(c) else c for c in source if not stringprep.in_table_b1(c)))")), None)
-    i_nfkc = next((i for i, t in enumerate(texts) if t == "data = unicodedata.normalize('NFKC', data)"), None)
+    i_nfkc = next((i for i, t in enumerate(texts) if t in ("data = unicodedata.normalize('NFKC', data)", "data = unicodedata.ucd_3_2_0.normalize('NFKC', data)", "data = ucd_3_2_0.normalize('NFKC', data)")), None)
     i_bidi = next((i for i, t in enumerate(texts) if t.startswith("if is_ral_char(")), None)
     rep.check(i_map is not None, R, s, "mapping step", "mapping: B.1 characters removed, C.1.2 spaces -> U+0020")
     rep.check(i_nfkc is not None and i_map is not None and i_map < i_nfkc, R, s, "NFKC after mapping", "normalisation with NFKC after mapping")
+    # stringprep (RFC 3454) is defined over Unicode 3.2: the tables of the stdlib `stringprep` module are 3.2 tables, and the normalisation must
+    # be the 3.2 one too (unicodedata.ucd_3_2_0), otherwise code points unassigned in 3.2 are folded into old ones before the A.1 check sees them
+    rep.check(i_nfkc is not None and "ucd_3_2_0" in texts[i_nfkc], R, s + " unicode 3.2", texts[i_nfkc] if i_nfkc is not None else "<none>",
+              "NFKC is computed with the Unicode 3.2 database (unicodedata.ucd_3_2_0), as RFC 3454 / 4013 require",
+              witness="saslprep('\\u1d2c') returns 'A' (U+1D2C is unassigned in Unicode 3.2 and must be refused, as U+0221 is); 667 single code points differ from the RFC")
     bidi = body[i_bidi] if i_bidi is not None else None
     ok = bidi is not None and ast.unparse(bidi.test) == "is_ral_char(data[0])" and "if not is_ral_char(data[-1]):" in qtext(bidi) and i_nfkc is not None and i_bidi > i_nfkc
     rep.check(ok, R, s, ast.unparse(bidi.test) if bidi is not None else "<none>", "bidi rule (first and last character RandALCat) is evaluated on the mapped and normalised text",
@@ -435,4 +444,16 @@ def run(model, rep):
     rule_scrypt(model, rep)
     prim.rule_hmac(model, rep, "C11.f-hmac-pbkdf")
     prim.rule_pbkdf(model, rep, "C11.f-hmac-pbkdf")
+    # "for every digest": lookup_hash() resolves digests hashlib lacks (md4 under OpenSSL 3) to the built-in constructor and reports them as
+    # supported; compile_hmac() and pbkdf1() use that constructor -- pbkdf2_hmac() must not depend on hashlib knowing the name
+    D = "passlib.crypto.digest"
+    fn = model.func(D, "pbkdf2_hmac")
+    calls = [c for c in walk_no_nested(fn) if isinstance(c, ast.Call) and ast.unparse(c.func) == "hashlib.pbkdf2_hmac"]
+    uses_const = any(isinstance(n, ast.Attribute) and n.attr == "const" for n in ast.walk(fn)) or any(isinstance(c, ast.Call) and ast.unparse(c.func) == "compile_hmac" for c in walk_no_nested(fn))
+    if calls and not uses_const:
+        rep.violation("C11.f-hmac-pbkdf", f"{D}:pbkdf2_hmac fallback", f"return {ast.unparse(calls[0])}  # by name only; the constructor lookup_hash() resolved is never used",
+                      "PBKDF2 is delegated to hashlib by digest *name*; a digest that exists only as passlib's built-in constructor (md4 where OpenSSL dropped it) has no code path",
+                      witness="pbkdf2_hmac('md4', b'secret', b'salt', 62, 40) raises UnsupportedDigestmodError although lookup_hash('md4').supported is True and compile_hmac()/pbkdf1() work with md4")
+    else:
+        rep.hold("C11.f-hmac-pbkdf", f"{D}:pbkdf2_hmac fallback", "a constructor-based path exists")
     rule_saslprep(model, rep)
